@@ -35,3 +35,43 @@ Definition sort_key (key : string -> Z) (l : list string) : list string := fold_
 Definition restore_dim_order (objdims : list string) (gname : string) (gdim : option string) (no_reorder : bool)
            (resultdims : list string) : list string :=
   sort_key (lookup_order objdims gname gdim no_reorder) resultdims.
+
+(* ------------------------------------------------------------------ *)
+(* _broadcast_size_one_dims: align a grouper (dims [bdims], any subset of the array's core dims [core], in any
+   order) with the array: transpose it into core order, then insert size-1 axes where a core dim is absent.
+   Arrays are abstracted by the list of their axis names ([None] = an inserted size-1 axis). *)
+Definition smem (d : string) (l : list string) : bool := existsb (String.eqb d) l.
+
+Fixpoint nat_index_of (d : string) (l : list string) (i : nat) : nat :=
+  match l with
+  | [] => i
+  | x :: r => if String.eqb x d then i else nat_index_of d r (S i)
+  end.
+
+(* order = [dims.index(d) for d in core if d in dims] ; array.transpose with that order *)
+Definition transpose_order (core bdims : list string) : list nat :=
+  map (fun d => nat_index_of d bdims 0) (filter (fun d => smem d bdims) core).
+Definition transposed (core bdims : list string) : list string :=
+  map (fun i => nth i bdims ""%string) (transpose_order core bdims).
+
+(* axis = [core.index(d) for d in core if d not in dims] ; np.expand_dims(array, axis): the new axes sit at the
+   listed positions of the RESULT *)
+Fixpoint expand_at (pos : nat) (axes : list nat) (cur : list (option string)) (n : nat) : list (option string) :=
+  match n with
+  | O => []
+  | S k =>
+      if existsb (Nat.eqb pos) axes then None :: expand_at (S pos) axes cur k
+      else match cur with
+           | [] => []
+           | c :: r => c :: expand_at (S pos) axes r k
+           end
+  end.
+Fixpoint positions_where (f : string -> bool) (l : list string) (i : nat) : list nat :=
+  match l with
+  | [] => []
+  | x :: r => if f x then i :: positions_where f r (S i) else positions_where f r (S i)
+  end.
+Definition broadcast_axes (core bdims : list string) : list nat :=
+  positions_where (fun d => negb (smem d bdims)) core 0.
+Definition broadcast_result (core bdims : list string) : list (option string) :=
+  expand_at 0 (broadcast_axes core bdims) (map Some (transposed core bdims)) (length core).
